@@ -5,7 +5,8 @@
 //! After every construction / modification step the six public fields are projected (`f`); in C06 cases
 //! also the four views: get on every position (`gp` present flags, `gv` values), to_triplets (`trip`),
 //! to_dense (`dense`), col_index (`ci`).  A products event logs A x, A^T y, transpose() * y,
-//! transpose()^T x, <y, A x>, <A^T y, x> and the products of a scaled copy.  Values are small integers
+//! transpose()^T x, <y, A x> and <A^T y, x> (crate's Vector::dot), the products of a scaled copy, a repeated
+//! multiply / transpose_multiply on the same object and the crate's dense route to_dense() * x, to_dense()^T * y.  Values are small integers
 //! (exact in both element types).  `gen` tiers: "quick" / "thorough" (C06), "quick:c07" / "thorough:c07".
 use crate::util::*;
 use ohsl::{Sparse, Vector};
@@ -37,14 +38,6 @@ fn triplets_from<T: Elem>(ts: &Value) -> Vec<(usize, usize, T)> {
 fn usvec(v: &Value) -> Vec<usize> { ivec(v).iter().map(|x| (*x).max(0) as usize).collect() }
 fn tvec<T: Elem>(v: &Value) -> Vec<T> { ivec(v).iter().map(|x| T::from_ri(*x, 0)).collect() }
 fn jtv<T: Elem>(v: &Vector<T>) -> Value { Value::from(v.vec.iter().map(val_i).collect::<Vec<i64>>()) }
-/// <u, v> evaluated in T by the harness (BAD when the lengths differ)
-fn dot_i<T: Elem>(u: &Vector<T>, v: &Vector<T>) -> i64 {
-    if u.size() != v.size() { return BAD; }
-    let mut s = T::from_ri(0, 0);
-    for k in 0..u.size() { s += u[k] * v[k]; }
-    val_i(&s)
-}
-
 /// the four views of C06, each call on the real object
 fn add_views<T: Elem>(s: &Sparse<T>, e: &mut Value) {
     e["views"] = json!(true);
@@ -78,6 +71,9 @@ fn products<T: Elem>(s: &Sparse<T>, st: &Value, e: &mut Value) {
     let r = guarded(|| {
         let ax = s.multiply(&x);
         let aty = s.transpose_multiply(&y);
+        // the same calls once more on the same object (a second call may take a different internal path)
+        let ax2 = s.multiply(&x);
+        let aty2 = s.transpose_multiply(&y);
         let t = s.transpose();
         let tax = t.multiply(&y);
         let ttx = t.transpose_multiply(&x);
@@ -85,16 +81,24 @@ fn products<T: Elem>(s: &Sparse<T>, st: &Value, e: &mut Value) {
         s2.scale(&a);
         let sax = s2.multiply(&x);
         let saty = s2.transpose_multiply(&y);
-        (dot_i(&y, &ax), dot_i(&aty, &x), jtv(&ax), jtv(&aty), jtv(&tax), jtv(&ttx), jtv(&sax), jtv(&saty))
+        // both sides of the adjoint identity with the crate's own inner product
+        let yax = val_i(&y.dot(&ax));
+        let atyx = val_i(&aty.dot(&x));
+        // the crate's dense route: to_dense() and Matrix * Vector
+        let dm = s.to_dense();
+        let dx = dm.multiply(&x);
+        let dty = dm.transpose().multiply(&y);
+        (yax, atyx, vec![jtv(&ax), jtv(&aty), jtv(&tax), jtv(&ttx), jtv(&sax), jtv(&saty), jtv(&ax2), jtv(&aty2), jtv(&dx), jtv(&dty)])
     });
+    const KEYS: [&str; 10] = ["ax", "aty", "tax", "ttx", "sax", "saty", "ax2", "aty2", "dx", "dty"];
     match r {
-        Ok((yax, atyx, ax, aty, tax, ttx, sax, saty)) => {
+        Ok((yax, atyx, vs)) => {
             e["panic"] = json!(false); e["yax"] = json!(yax); e["atyx"] = json!(atyx);
-            e["ax"] = ax; e["aty"] = aty; e["tax"] = tax; e["ttx"] = ttx; e["sax"] = sax; e["saty"] = saty;
+            for (k, v) in KEYS.iter().zip(vs.into_iter()) { e[*k] = v; }
         }
         Err(_) => {
             e["panic"] = json!(true); e["yax"] = json!(0); e["atyx"] = json!(0);
-            for k in ["ax", "aty", "tax", "ttx", "sax", "saty"] { e[k] = json!([]); }
+            for k in KEYS { e[k] = json!([]); }
         }
     }
 }
@@ -203,45 +207,56 @@ fn rand_ctor(rng: &mut StdRng, r: usize, c: usize) -> (Value, Track) {
     let st = if rng.gen_bool(0.3) { ctor_vecs(r, c, &ts) } else { ctor_triplets(r, c, &ts) };
     (st, track_of(r, c, &ts))
 }
-/// pairwise distinct components
+/// pairwise distinct non-zero components
 fn distinct_vec(rng: &mut StdRng, n: usize) -> Value {
-    let mut pool: Vec<i64> = (-15..=15).collect(); pool.shuffle(rng); pool.truncate(n); Value::from(pool)
+    let mut pool: Vec<i64> = (-15..=15).filter(|v| *v != 0).collect(); pool.shuffle(rng); pool.truncate(n); Value::from(pool)
 }
 fn products_step(rng: &mut StdRng, t: &Track) -> Value {
     let a: i64 = [-3i64, -2, -1, 0, 2, 3][rng.gen_range(0..6)];
     json!({"op": "products", "x": distinct_vec(rng, t.cols), "y": distinct_vec(rng, t.rows), "a": a})
 }
-/// one random modification; updates the bookkeeping
-fn rand_mod(rng: &mut StdRng, t: &mut Track) -> Value {
-    loop {
-        match rng.gen_range(0..10) {
-            0..=3 => { // insert a new entry
-                let free: Vec<(usize, usize)> = (0..t.rows).flat_map(|i| (0..t.cols).map(move |j| (i, j))).filter(|p| !t.ent.contains_key(p)).collect();
-                if free.is_empty() { continue; }
-                let p = free[rng.gen_range(0..free.len())]; let v = zval(rng, 0.12); t.ent.insert(p, v);
-                return json!({"op": "insert", "i": p.0, "j": p.1, "v": v});
-            }
-            4 | 5 => { // overwrite an existing entry
-                if t.ent.is_empty() { continue; }
-                let keys: Vec<(usize, usize)> = t.ent.keys().cloned().collect();
-                let p = keys[rng.gen_range(0..keys.len())]; let v = zval(rng, 0.25); t.ent.insert(p, v);
-                return json!({"op": "insert", "i": p.0, "j": p.1, "v": v});
-            }
-            6 | 7 => { // scale (magnitude growth is bounded so that every number stays far inside 32 bits)
-                let a = [-1i64, 2, -2, 3, 1, 0][rng.gen_range(0..6)];
-                if a == 0 && rng.gen_bool(0.6) { continue; }
-                if a.abs() > 1 { if t.growth >= 5 { continue; } t.growth += 1; }
-                for v in t.ent.values_mut() { *v *= a; }
-                return json!({"op": "scale", "a": a});
-            }
-            _ => { // transpose
-                let e: BTreeMap<(usize, usize), i64> = t.ent.iter().map(|(k, v)| ((k.1, k.0), *v)).collect();
-                t.ent = e; std::mem::swap(&mut t.rows, &mut t.cols);
-                return json!({"op": "transpose"});
-            }
+/// one modification of the given kind (0 insert new, 1 overwrite an existing entry with a DIFFERENT value,
+/// 2 scale, 3 transpose); None when the kind is impossible in this state; updates the bookkeeping
+fn mod_kind(rng: &mut StdRng, t: &mut Track, kind: u8) -> Option<Value> {
+    match kind {
+        0 => {
+            let free: Vec<(usize, usize)> = (0..t.rows).flat_map(|i| (0..t.cols).map(move |j| (i, j))).filter(|p| !t.ent.contains_key(p)).collect();
+            if free.is_empty() { return None; }
+            let p = free[rng.gen_range(0..free.len())]; let v = zval(rng, 0.12); t.ent.insert(p, v);
+            Some(json!({"op": "insert", "i": p.0, "j": p.1, "v": v}))
+        }
+        1 => {
+            if t.ent.is_empty() { return None; }
+            let keys: Vec<(usize, usize)> = t.ent.keys().cloned().collect();
+            let p = keys[rng.gen_range(0..keys.len())];
+            let old = t.ent[&p];
+            let v = loop { let v = zval(rng, 0.25); if v != old { break v; } };
+            t.ent.insert(p, v);
+            Some(json!({"op": "insert", "i": p.0, "j": p.1, "v": v}))
+        }
+        2 => { // magnitude growth is bounded so that every number stays far inside 32 bits
+            let a = loop { let a = [-1i64, 2, -2, 3, 1, 0][rng.gen_range(0..6)]; if a == 0 && rng.gen_bool(0.6) { continue; } if a.abs() > 1 && t.growth >= 5 { continue; } break a; };
+            if a.abs() > 1 { t.growth += 1; }
+            for v in t.ent.values_mut() { *v *= a; }
+            Some(json!({"op": "scale", "a": a}))
+        }
+        _ => {
+            let e: BTreeMap<(usize, usize), i64> = t.ent.iter().map(|(k, v)| ((k.1, k.0), *v)).collect();
+            t.ent = e; std::mem::swap(&mut t.rows, &mut t.cols);
+            Some(json!({"op": "transpose"}))
         }
     }
 }
+/// one random modification
+fn rand_mod(rng: &mut StdRng, t: &mut Track) -> Value {
+    loop {
+        let kind = match rng.gen_range(0..10) { 0..=3 => 0, 4 | 5 => 1, 6 | 7 => 2, _ => 3 };
+        if let Some(v) = mod_kind(rng, t, kind) { return v; }
+    }
+}
+/// a fixed skeleton in which every kind of modification is preceded and followed by every other kind:
+/// scale and transpose follow inserts of new entries, overwrites follow products on the same object
+const SKELETON: [u8; 10] = [0, 2, 0, 3, 1, 1, 2, 3, 0, 1];
 
 /// history centred on explicit zeros: overwrite an existing entry with 0, insert a new 0, scale by 0,
 /// transposes in between (a stored zero must survive or vanish consistently), then non-zero values again.
@@ -271,6 +286,37 @@ fn zero_history(rng: &mut StdRng, r: usize, c: usize, with_products: bool) -> Ve
     if rng.gen_bool(0.5) { for v in t.ent.values_mut() { *v = 0; } steps.push(json!({"op": "scale", "a": 0})); pr(rng, &t, &mut steps); }
     for _ in 0..3 { steps.push(rand_mod(rng, &mut t)); }
     pr(rng, &t, &mut steps);
+    steps
+}
+
+/// raw compressed-column inputs whose columns are FULL (every row present) or which have a single column /
+/// single row, with the rows of each column stored descending, rotated or in random order (never sorted):
+/// `kind` 0 = n x 1, 1 = 1 x n, 2 = n x m all columns full, 3 = n x m with some full columns and others partial
+fn column_order_case(rng: &mut StdRng, n: usize, m: usize, kind: usize, order: usize) -> (usize, usize, Vec<(usize, usize, i64)>) {
+    let (r, c) = match kind { 0 => (n, 1), 1 => (1, n), _ => (n, m) };
+    let mut ts: Vec<(usize, usize, i64)> = vec![];
+    for j in 0..c {
+        let full = kind != 3 || j % 2 == 0;
+        let mut rows: Vec<usize> = (0..r).collect();
+        if !full { rows.shuffle(rng); let k = rng.gen_range(0..=r); rows.truncate(k); rows.sort(); }
+        match order {
+            0 => rows.reverse(),                                                     // bottom to top
+            1 => { let k = if rows.len() > 1 { rng.gen_range(1..rows.len()) } else { 0 }; rows.rotate_left(k); } // rotated
+            _ => rows.shuffle(rng),
+        }
+        for i in rows { ts.push((i, j, nzval(rng))); }
+    }
+    (r, c, ts)
+}
+/// from_vecs on such an input, then overwrite / transpose / overwrite / new entry / scale; products in between for C07
+fn column_order_history(rng: &mut StdRng, n: usize, m: usize, kind: usize, order: usize, with_products: bool) -> Vec<Value> {
+    let (r, c, ts) = column_order_case(rng, n, m, kind, order);
+    let mut t = track_of(r, c, &ts);
+    let mut steps = vec![ctor_vecs(r, c, &ts)];
+    if with_products { steps.push(products_step(rng, &t)); }
+    for kind in [1u8, 1, 3, 1, 0, 2, 3] {
+        if let Some(st) = mod_kind(rng, &mut t, kind) { steps.push(st); if with_products { steps.push(products_step(rng, &t)); } }
+    }
     steps
 }
 
@@ -356,19 +402,32 @@ fn gen_c06(quick: bool, seed: u64, out: &mut Out) {
         let steps = zero_history(&mut rng, r, c, false);
         push(out, TYS[h % 2], steps);
     }
+    // (g) raw arrays with full columns / a single column / a single row in descending, rotated and random row
+    //     order, at the largest size (8) and smaller ones; every view after construction, overwrite, transpose
+    let sizes = if quick { vec![8usize, 3] } else { vec![8usize, 7, 5, 3, 2] };
+    for n in sizes { for kind in 0..4usize { for order in 0..3usize { for rep in 0..(if quick { 1 } else { 4 }) {
+        let m = if rep % 2 == 0 { 8 } else { rng.gen_range(2..=8usize) };
+        let steps = column_order_history(&mut rng, n, m, kind, order, false);
+        push(out, TYS[(kind + order + rep) % 2], steps);
+    } } } }
 }
 
 fn gen_c07(quick: bool, seed: u64, out: &mut Out) {
     let mut rng = rng(seed, 7);
     let mut cid = 0i64;
     let mut push = |out: &mut Out, ty: &str, steps: Vec<Value>| { cid += 1; out.raw(&json!({"suite": "sparse", "cid": cid, "ty": ty, "prop": "C07", "steps": steps})); };
-    // (a) every shape 0..10 x 0..10: products on the fresh matrix and after each kind of modification
+    // (a) every shape 0..10 x 0..10: products on the fresh matrix, then the skeleton insert-new / scale /
+    //     insert-new / transpose / overwrite / overwrite / scale / transpose / insert-new / overwrite with a
+    //     products event (same object) before and after every step
     let reps = if quick { 2 } else { 8 };
     for r in 0..=10usize { for c in 0..=10usize { for rep in 0..reps {
         let ty = TYS[(r + c + rep) % 2];
         let (st, mut t) = rand_ctor(&mut rng, r, c);
         let mut steps = vec![st, products_step(&mut rng, &t)];
-        for _ in 0..4 { steps.push(rand_mod(&mut rng, &mut t)); steps.push(products_step(&mut rng, &t)); }
+        let off = rng.gen_range(0..SKELETON.len());
+        for k in 0..(if quick { 6 } else { SKELETON.len() }) {
+            if let Some(m) = mod_kind(&mut rng, &mut t, SKELETON[(k + off) % SKELETON.len()]) { steps.push(m); steps.push(products_step(&mut rng, &t)); }
+        }
         push(out, ty, steps);
     } } }
     // (b) special patterns (empty, full, diagonal, a single column / row, empty border) with several vectors
@@ -389,12 +448,12 @@ fn gen_c07(quick: bool, seed: u64, out: &mut Out) {
             push(out, TYS[(r + n) % 2], steps);
         }
     } }
-    // (c) longer histories with a products event after every second modification
+    // (c) longer histories with a products event after every modification
     for h in 0..(if quick { 50 } else { 300 }) {
         let (r, c) = (rng.gen_range(0..=10usize), rng.gen_range(0..=10usize));
         let (st, mut t) = rand_ctor(&mut rng, r, c);
         let mut steps = vec![st, products_step(&mut rng, &t)];
-        for k in 0..30 { steps.push(rand_mod(&mut rng, &mut t)); if k % 2 == 1 { steps.push(products_step(&mut rng, &t)); } }
+        for _ in 0..30 { steps.push(rand_mod(&mut rng, &mut t)); steps.push(products_step(&mut rng, &t)); }
         push(out, TYS[h % 2], steps);
     }
     // (d) explicit zeros in the matrix (overwrite with 0, new 0 entry, scale by 0) with products in between
@@ -403,6 +462,14 @@ fn gen_c07(quick: bool, seed: u64, out: &mut Out) {
         let steps = zero_history(&mut rng, r, c, true);
         push(out, TYS[h % 2], steps);
     }
+    // (e) raw arrays with full columns / a single column / a single row in descending, rotated and random row
+    //     order at the largest size (10) and smaller ones, products after construction and after every step
+    let sizes = if quick { vec![10usize, 4] } else { vec![10usize, 9, 8, 6, 4, 2] };
+    for n in sizes { for kind in 0..4usize { for order in 0..3usize { for rep in 0..(if quick { 1 } else { 4 }) {
+        let m = if rep % 2 == 0 { 10 } else { rng.gen_range(2..=10usize) };
+        let steps = column_order_history(&mut rng, n, m, kind, order, true);
+        push(out, TYS[(kind + order + rep) % 2], steps);
+    } } } }
 }
 
 pub fn gen(tier: &str, seed: u64, out: &mut Out) {
